@@ -1,6 +1,8 @@
 From Coq Require Import Extraction ExtrOcamlBasic List ZArith.
-From MirV Require Import C05.SysV C05.AbiImpl.
+From MirV Require Import C05.SysV C05.AbiImpl C06.VaList C06.Frame.
 Extraction Language OCaml.
 Extraction "c06x.ml" assign stack_area al_ok wf_args result_locs narrow widen_result arg_words arg_obs image
   ff_assign ff_assign_head ff_sub_rsp ff_al mc_assign mc_assign_head mc_sub_rsp mc_al mc_al_head
-  in_assign in_assign_head mc_results ff_results.
+  in_assign in_assign_head mc_results ff_results ret_results shim_results
+  va_read_seq gen_va_start gen_va_start_head interp_decode va_of
+  sub_sp save_list restore_list reg_save_stores slot_offset saved_regs block_size.
